@@ -174,7 +174,8 @@ def tlc_world(w: dict) -> dict:
 def execute(case: dict) -> dict:
     from emsarray.operations import depth
     w = case["world"]
-    ds = build(w)
+    from . import viafile
+    ds = viafile.hold_ds(w, build(w))
     conv = W.bind(w, ds)
     rec = {"tid": case["tid"], "src": case["src"], "w": tlc_world(w), "events": []}
     cur = ds
@@ -220,6 +221,14 @@ def execute(case: dict) -> dict:
 
 
 def cases(tier: str, seed: int, *, kinds=("norm", "floor")) -> list[dict]:
+    out = _cases(tier, seed, kinds=kinds)
+    vias = ["memory", "file", "memory", "dask", "emsopen"]       # how the dataset is held (viafile.hold)
+    for k, c in enumerate(out):
+        c["world"]["via"] = vias[k % len(vias)]
+    return out
+
+
+def _cases(tier: str, seed: int, *, kinds=("norm", "floor")) -> list[dict]:
     rng = random.Random(seed + 1213)
     out = []
     opts = ["none", "yes", "no"]
@@ -267,3 +276,7 @@ def cases(tier: str, seed: int, *, kinds=("norm", "floor")) -> list[dict]:
 def _with_coord(w, dc):
     w["depths"][0] = dc
     return w
+
+
+from . import viafile as _viafile  # noqa: E402
+execute = _viafile.closing(execute)
